@@ -103,7 +103,17 @@ BOUNDS = {
              "SettingsInversion / Preloads / PSF / SimulatorImaging instance is used for the run at o and the run at o+d, in both orders.",
     "thorough": "as quick plus ALL masks of 3x3, 2x4, 4x2, 2x5, 5x2; every named mask a second time with kernel (3,5), sub size 3, pads (+1,+4); more "
                 "shapes for points / radial; rectangular + Delaunay mappers on all 2x3 masks and more named masks; datasets on 8 named masks and all "
-                "2x3 and 2x2 masks; overlay additionally on blob6x7 (2x3 mesh), all 2x2 masks (bounded) and all 3x3 masks (3x2 and 1x1 meshes, unbounded).",
+                "2x3 and 2x2 masks; overlay additionally on blob6x7 (2x3 mesh), all 2x2 masks (bounded) and all 3x3 masks (3x2 and 1x1 meshes, unbounded); "
+                "shared option objects on 7 named masks and all 2x2 / 2x3 masks. DEEPER (same obligations): (1) each of the 12 named masks and of 8 "
+                "further hard masks (9x9 annulus, 8x10 off-centre blob, 6x6 fully unmasked, 7x7 diagonal, 6x6 checkerboard, 8x8 boundary frame, 1x9 "
+                "row, 9x2 column) under ALL ten dyadic pixel-scale pairs - the five above plus (0.125,4), (8,8), (1,0.0625), (1.5,0.75), (1024,0.5) - "
+                "cycling kernels (3,3)/(5,5)/(5,3)/(3,7), sub sizes 2/4/3, pads (+2,+1)/(+3,+3)/(0,+2)/(+4,0); (2) ALL 4095 masks of 3x4 (scales "
+                "(0.5,2)) and of 4x3 (scales (0.25,0.5), kernel (3,5), sub 3); (3) datasets on all 3x3 and 2x4 masks and on the hard masks with "
+                ">= 2 rows; rectangular (meshes up to 7x7, 4x5 on all 3x3 masks) and Delaunay mappers on the hard masks and all 3x3 masks; shared "
+                "option objects on the hard masks and all 3x3 / 3x2 masks; overlay meshes 4x4 / 2x5 / 5x1 / 3x3 on the hard masks, 2x2 on all 3x3 "
+                "masks (unbounded) and 2x3 on all 2x4 masks (|o| <= 0.75 pixel); (4) translated points: 3 unbounded points for shapes 7x11, 1x1, 2x13, "
+                "10x10, 9x4 under all ten scale pairs, class level for 4x4, 5x3, 1x6, 3x5 and two points on 2x2; radial projections for ten more "
+                "angles (15 ... 359, -45, 720 degrees) on shapes 7x7, 3x9, 10x4, 1x5, 6x6.",
 }
 OUTSIDE = [
     "image_mesh.Hilbert / HilbertBalanced (scipy.interpolate.griddata / interp1d on the mask geometry): not executed symbolically",
